@@ -32,7 +32,7 @@ BoundM(A2, P, b, m) ==
     LET d == Decide(A2, P, b, m) IN
     IF d.k = "Reorg" THEN 2 * (Len(d.old) + Len(d.new)) + 2
     ELSE 2 * (Cardinality(P.stored) + 1) + 2
-Bound(A2, P, b) == Max2(BoundM(A2, P, b, "flags"), BoundM(A2, P, b, "stored"))
+Bound(A2, P, b) == BoundM(A2, P, b, "flags")
 
 KindStr(A2, P, b) == Decide(A2, P, b, "flags").k \o "/" \o Decide(A2, P, b, "stored").k
 
@@ -40,16 +40,21 @@ Checks(e, A2, P, T, prevwal) ==
     LET b == e.b
         c03 == IF IsPanic(e.res) THEN {} ELSE
                {Bad(e, "C03", x) : x \in Inconsistencies(A2, T)}
+        (* the chain the node was on before the call starts at a block whose parent it never *)
+        (* wound: it runs without the outputs of the older blocks (Chain.tla, Inconsistencies) *)
+        pp == IF P.tip = None THEN <<>> ELSE FlaggedPath(A2, P)
+        unrooted == pp # <<>> /\ A2[pp[1]].parent # None
+        regime == IF unrooted THEN "-on-chain-without-known-ancestors" ELSE ""
         c04 == (IF IsPanic(e.res) THEN {Bad(e, "C04", "panic")} ELSE {})
                \cup (IF ~Accepted(e.res) /\ ~IsPanic(e.res) /\ T # P
-                     THEN {Bad(e, "C04", "rejected-block-left-trace:" \o
+                     THEN {Bad(e, "C04", "rejected-block-left-trace" \o regime \o ":" \o
                               (IF T.tip # P.tip THEN "tip " ELSE "") \o
                               (IF T.utxo # P.utxo THEN "utxo " ELSE "") \o
                               (IF T.lc # P.lc THEN "index " ELSE "") \o
                               (IF T.inlc # P.inlc THEN "flags " ELSE "") \o
                               (IF T.stored # P.stored THEN "stored" ELSE ""))} ELSE {})
                \cup (IF ~Accepted(e.res) /\ ~IsPanic(e.res) /\ e.wal # prevwal
-                     THEN {Bad(e, "C04", "rejected-block-changed-wallet")} ELSE {})
+                     THEN {Bad(e, "C04", "rejected-block-changed-wallet" \o regime)} ELSE {})
                \cup (IF \E i \in DOMAIN e.steps : e.steps[i][1] = "B"
                      THEN {Bad(e, "C04", "step-budget-exceeded")} ELSE {})
                \cup (IF Len(e.steps) > Bound(A2, P, b)
